@@ -3,13 +3,20 @@ import Sop.Driver.Util
 /-! Line protocol for C16.
 `case <n> ps=<ids,comma separated or -> <bits of id 0> <bits of id 1> …` — bits are four characters
 `begin phase1 phase2 rollback`, `1` = the call succeeds. Ops: `begin`, `commit`, `rollback`; the answer is
-the call log and the method's result: `P0.phase1+ P1.phase1- P0.rollback+ … => err P1.phase1 rb=P2`. -/
+the call log and the method's result: `P0.phase1+ P1.phase1- P0.rollback+ … => err P1.phase1 rb=P2`.
+
+Faithful-lifecycle cases: `case <n> lc=<W|R|N>:<phaseDone>:<committed 0|1> ps=… <work bits of SOP> <bits of id 1> …`.
+SOP's side is then the state machine `Sop.TwoPC.sopCall` (threaded through the ops of the case) and its four bits say
+whether the internal work of Begin/Phase1Commit/Phase2Commit/Rollback succeeds when reached; every logged call carries
+what SOP's `HasBegun()` answers right after it: `P0.phase2-e` (`b` = begun, `e` = not begun / ended). -/
 namespace Sop.Driver.C16
 open Sop.Driver Sop.TwoPC
 
 structure St where
   ps : List Nat
   bits : List (List Bool)
+  life : Option SopSt := none
+  done : Bool := false      -- the wrapper's `committed` flag (set by a Commit that returned nil)
 
 def kindIx : Kind → Nat
   | .begin => 0 | .phase1 => 1 | .phase2 => 2 | .rollback => 3
@@ -34,16 +41,53 @@ def parsePs (s : String) : List Nat :=
   | [_, v] => if v == "-" then [] else (v.splitOn ",").filterMap String.toNat?
   | _ => []
 
+def showCallL (c : CallL) : String :=
+  s!"P{c.who}.{kindName c.kind}{if c.ok then "+" else "-"}{if c.hb then "b" else "e"}"
+
+def showOutL (o : OutL) : String :=
+  let l := " ".intercalate (o.log.map showCallL)
+  (if l.isEmpty then "-" else l) ++ " => " ++ showRet o.ret
+
+def parseLife (s : String) : Option SopSt :=
+  match s.splitOn "=" with
+  | ["lc", v] =>
+    match v.splitOn ":" with
+    | [m, pd, c] =>
+      let mode := if m == "W" then Mode.forWriting else if m == "R" then Mode.forReading else Mode.noCheck
+      some ⟨mode, (pd.toInt?).getD (-1), c == "1"⟩
+    | _ => none
+  | _ => none
+
+def St.work (st : St) : Work := fun k => ((st.bits.getD 0 []).getD (kindIx k) true)
+
+def parseBits (bits : List String) : List (List Bool) := bits.map (fun w => w.toList.map (· == '1'))
+
 def reset (hdr : List String) : St :=
   match hdr with
-  | [] => ⟨[], []⟩
-  | p :: bits => ⟨parsePs p, bits.map (fun w => w.toList.map (· == '1'))⟩
+  | [] => ⟨[], [], none, false⟩
+  | p :: rest =>
+    match parseLife p, rest with
+    | some σ, q :: bits => ⟨parsePs q, parseBits bits, some σ, false⟩
+    | _, _ => ⟨parsePs p, parseBits rest, none, false⟩
+
+def stepL (st : St) (σ : SopSt) (ws : List String) : St × String :=
+  let fin (o : OutL) : St × String := ({ st with life := some o.st, done := o.done }, showOutL o)
+  match ws with
+  | ["begin"] => fin (beginL st.work st.script st.ps σ st.done)
+  | ["commit"] => fin (commitL .asIs st.work st.script st.ps σ st.done)
+  | ["rollback"] => fin (rollbackOutL .asIs st.work st.script st.ps σ st.done)
+  | _ => (st, "bad-op")
 
 def step (st : St) (ws : List String) : St × String :=
+  match st.life with
+  | some σ => stepL st σ ws
+  | none =>
   match ws with
   | ["begin"] => let r := begin st.script st.ps; (st, showOut r.1 (showRet r.2))
-  | ["commit"] => let r := commit st.script st.ps; (st, showOut r.1 (showRet r.2))
-  | ["rollback"] => (st, showOut (rollback st.script st.ps).1 (showRet (rollbackRet st.script st.ps)))
+  | ["commit"] =>
+    -- black-box cases make one Commit per object: the flag is unset when it starts, set when it returns nil
+    let r := commit st.script st.ps; ({ st with done := st.done || r.2 == .ok }, showOut r.1 (showRet r.2))
+  | ["rollback"] => (st, showOut (rollbackC st.done st.script st.ps).1 (showRet (rollbackRetC st.done st.script st.ps)))
   | _ => (st, "bad-op")
 
 def run : IO Unit := runLoop reset step
